@@ -98,17 +98,17 @@ FINDINGS = [
     _f(
         "C07-async-server-cpu-queue-stale", "AsyncServer", "past-emission", "_process_cpu_queue",
         "AsyncServer creates the `_process_cpu_queue` event before a generator io_handler runs and returns it after the I/O wait",
-        "servers.async_server_io_generator", {"arrivals_ns": [T, T]}, fix_proposed="C07-async-server-cpu-queue-during-io.diff",
+        "servers.async_server_io_generator", {"arrivals_ns": [T, T]}, fix_proposed="C07-async-server-cpu-queue-during-io.diff", fixed_commit="98b2278",
     ),
     _f(
         "C07-pooled-client-idle-timer-held", "PooledClient", "past-emission", "_pool_idle_timeout",
         "PooledClient._handle_timeout keeps the pool's idle-timeout event across `yield retry_delay`; it is in the past when the delay exceeds idle_timeout",
-        "clients.pooled_client_short_idle_timeout", {}, fix_proposed="C07-pooled-client-release-events-now.diff",
+        "clients.pooled_client_short_idle_timeout", {}, fix_proposed="C07-pooled-client-release-events-now.diff", fixed_commit="a8f36bf",
     ),
     _f(
         "C07-cache-warmer-start-epoch", "CacheWarmer", "past-emission", "cache_warm",
         "CacheWarmer.start_warming() returns its kick-off event stamped Instant.Epoch; (re)started during a run it is in the past and dropped",
-        "datastore.cache_warmer_rewarm", {}, fix_proposed="C07-cache-warmer-start-stamp.diff",
+        "datastore.cache_warmer_rewarm", {}, fix_proposed="C07-cache-warmer-start-stamp.diff", fixed_commit="cd74c3f",
     ),
     # ---- zero wait with the condition still false
     _f(
@@ -126,36 +126,57 @@ FINDINGS = [
     _f(
         "C07-shifted-server-boundary-truncation", "ShiftedServer", "frozen-clock", "rearm:_ShiftChange",
         "ShiftedServer stamps the next shift change with a truncated instant that is still before the float boundary: the same transition is re-scheduled at one instant forever",
-        "industrial.shifted_server_hostile", {}, fix_proposed="C07-shifted-server-boundary-ceil.diff",
+        "industrial.shifted_server_hostile", {}, fix_proposed="C07-shifted-server-boundary-ceil.diff", fixed_commit="4bf9cc9",
     ),
     # ---- periodic timers re-armed through a float round trip (interval = 1 ns)
     _f(
         "C07-stream-processor-watermark-1ns", "StreamProcessor", "frozen-clock", "rearm:Watermark",
         "StreamProcessor re-arms its watermark at Instant.from_seconds(now.to_seconds() + interval): with a 1 ns interval this truncates back to `now`",
         "streaming.processor_raw_watermark_interval", {"arrivals_ns": [14, 14], "lats": [0.001, 1e-09, 0.001, 0.001]},
-        fix_proposed="C07-one-ns-periodic-timers.diff",
+        fix_proposed="C07-one-ns-periodic-timers.diff", fixed_commit="8438cc4",
     ),
     _f(
         "C07-event-log-retention-1ns", "EventLog", "frozen-clock", "rearm:RetentionCheck",
         "EventLog re-arms its retention check through a float round trip: with a 1 ns interval the next check is stamped at `now`",
         "streaming.event_log_raw_retention_interval", {"arrivals_ns": [T, T], "lats": [0.001, 0.001, 0.001, 1e-09]},
-        fix_proposed="C07-one-ns-periodic-timers.diff",
+        fix_proposed="C07-one-ns-periodic-timers.diff", fixed_commit="8438cc4",
     ),
     _f(
         "C07-crdt-store-gossip-1ns", "CRDTStore", "frozen-clock", "rearm:GossipTick",
         "CRDTStore re-arms its gossip tick through a float round trip: with a 1 ns interval the next tick is stamped at `now`",
-        "crdt.gossip_one_ns_interval", {"arrivals_ns": [T, T]}, fix_proposed="C07-one-ns-periodic-timers.diff",
+        "crdt.gossip_one_ns_interval", {"arrivals_ns": [T, T]}, fix_proposed="C07-one-ns-periodic-timers.diff", fixed_commit="8438cc4",
     ),
     _f(
         "C07-leader-node-anti-entropy-1ns", "LeaderNode", "frozen-clock", "rearm:AntiEntropy",
         "LeaderNode re-arms anti-entropy through a float round trip: with a 1 ns interval the next round is stamped at `now`",
-        "replication.anti_entropy_one_ns_interval", {"arrivals_ns": [T, T]}, fix_proposed="C07-one-ns-periodic-timers.diff",
+        "replication.anti_entropy_one_ns_interval", {"arrivals_ns": [T, T]}, fix_proposed="C07-one-ns-periodic-timers.diff", fixed_commit="8438cc4",
     ),
     _f(
         "C07-advertiser-evaluation-1ns", "Advertiser", "frozen-clock", "rearm:EvaluateCampaigns",
         "Advertiser re-arms its evaluation at Instant.from_seconds(time_s + interval): with a 1 ns interval this truncates back to `now`",
         "advertising.advertiser_raw_evaluation_interval", {"arrivals_ns": [1001002, 13346681], "lats": [1e-09, 0.25, 0.0123456789]},
-        fix_proposed="C07-one-ns-periodic-timers.diff",
+        fix_proposed="C07-one-ns-periodic-timers.diff", fixed_commit="8438cc4",
+    ),
+    # ---- found after the catalogue was widened (zero lead times, components started late)
+    _f(
+        "C07-inventory-zero-lead-time-1ns", "InventoryBuffer", "past-emission", "_InventoryReplenish",
+        "InventoryBuffer stamps the replenishment via a float round trip: with lead_time=0 it lands 1 ns in the past for some instants and the reorder is lost for good",
+        "industrial.inventory_zero_lead_time", {}, fix_proposed="C07-industrial-timers-relative-to-now.diff",
+    ),
+    _f(
+        "C07-perishable-zero-lead-time-1ns", "PerishableInventory", "past-emission", "_PerishableReplenish",
+        "PerishableInventory stamps the replenishment via a float round trip: with lead_time=0 it lands 1 ns in the past for some instants",
+        "industrial.perishable_check_much_shorter_than_shelf", {"arrivals_ns": [1000000000, 1000000000]}, fix_proposed="C07-industrial-timers-relative-to-now.diff",
+    ),
+    _f(
+        "C07-breakdown-start-event-from-epoch", "BreakdownScheduler", "past-emission", "_Breakdown",
+        "BreakdownScheduler.start_event() stamps the time to first failure from the Epoch instead of now: in the past when started late or with start_time > 0",
+        "industrial.late_start_cycles", {"arrivals_ns": [123456789, 123456789]}, seed=1, fix_proposed="C07-industrial-timers-relative-to-now.diff",
+    ),
+    _f(
+        "C07-perishable-start-event-from-epoch", "PerishableInventory", "past-emission", "_SpoilageCheck",
+        "PerishableInventory.start_event() stamps the first spoilage check from the Epoch instead of now: in the past when started late or with start_time > 0",
+        "industrial.late_start_cycles", {"arrivals_ns": [1000000000, 1000000000]}, fix_proposed="C07-industrial-timers-relative-to-now.diff",
     ),
 ]
 
